@@ -231,7 +231,9 @@ def gen_program(rnd, size=None, pseudo=True, data=True, aligns=True, transfers=T
                 v = rnd.choice([0, 1, -1, 31, 32, -32, -33, 2047, 2048, -2048, -2049, 0x7fffffff, 0x80000000, 0xffffffff,
                                 0xfffff800, 0x12345678, 4096, 0x1000 * rnd.randrange(1, 64), rnd.randrange(-2 ** 31, 2 ** 32),
                                 0x1000 * rnd.randrange(1, 32) + rnd.choice([1, 5, 16, 31, -1, -32]), 0x40021000 + rnd.choice([0, 4, 31]),
-                                rnd.randrange(-4096, 4096)])
+                                rnd.randrange(-4096, 4096),
+                                # the ends of the 32-bit range and values beyond it (li takes its operand mod 2^32)
+                                -2 ** 31, -2 ** 31 + 1, -2 ** 31 - 1, 2 ** 32 + 5, 2 ** 40 + 3, -2 ** 33, 0x1ffffffff, 2 ** 32])
                 body.append(Ln('    li %s, %s' % (reg_txt(rnd, rd), v if rnd.random() < 0.5 else (hex(v) if v >= 0 else str(v))),
                                'li', 'li', [rd], extra=v))
             elif t < 0.7:
